@@ -26,6 +26,10 @@ def run(ctx):
     ctx.guarded('R14b', c16.FIN, lambda: r14b(ctx))
     ctx.guarded('R14c', 'merge', lambda: r14c(ctx))
     ctx.guarded('R14d', 'pointer', lambda: r14d(ctx))
+    ctx.rule('R14e', 'the byte count of a local (same-file) dedup answer is the sum of the lengths of exactly the matched chunks (= C05-R05d): it feeds total_bytes and hence the pointer size')
+    from . import rules_c05 as c05
+    from .rules_c11 import _Alias
+    ctx.guarded('R14e', c05.LOCAL, lambda: c05.r05d(_Alias(ctx, 'R05d', 'R14e')))
 
 
 def r14a(ctx):
